@@ -1,10 +1,12 @@
 import Sebuf.Driver
+import Sebuf.DriverC12
 namespace Sebuf.DriverOps
 open Lean (Json)
 def dispatch (op : String) (j : Json) : Json :=
   match op with
   | "route5" => Sebuf.Driver.opRoute5 j
   | "route_svc" => Sebuf.Driver.opRouteSvc j
+  | "gen_outcome" => Sebuf.Driver.opGenOutcome j
   | "strfn" => Sebuf.Driver.opStrFn j
   | _ => Json.mkObj [("driver_err", Json.str ("unknown op " ++ op))]
 end Sebuf.DriverOps
